@@ -134,8 +134,11 @@ const KNOWN_TYPES: &[u16] = &[
 
 fn junk_strat() -> impl Strategy<Value = Junk> + Clone {
 	let ty = prop_oneof![4 => prop::sample::select(KNOWN_TYPES.to_vec()), 1 => 0u16..32768];
+	// types whose undecodable bodies LDK answers with a warning or ignores (gossip, unknown odd)
+	let soft_ty = prop_oneof![3 => prop::sample::select(vec![256u16, 257, 258, 261, 262, 263, 264]), 2 => (5000u16..16000).prop_map(|t| t * 2 + 1)];
 	prop_oneof![
-		40 => (ty, prop::collection::vec(any::<u8>(), 0..160)).prop_map(|(ty, body)| Junk::Typed { ty, body }),
+		25 => (ty, prop::collection::vec(any::<u8>(), 0..160)).prop_map(|(ty, body)| Junk::Typed { ty, body }),
+		25 => (soft_ty, prop::collection::vec(any::<u8>(), 0..160)).prop_map(|(ty, body)| Junk::Typed { ty, body }),
 		30 => (spec_strat(), 0u8..3, any::<u16>(), any::<u8>()).prop_map(|(mut spec, op, pos, val)| {
 			if matches!(spec.kind, Kind::Custom { .. }) {
 				spec.kind = Kind::Stfu;
